@@ -23,7 +23,8 @@ CALLS = {1: ('user.get', [5]), 2: ('tag.get', ['abc']), 3: ('user.get', ['abc'])
          23: ('lax.conv', ['5']), 24: ('strict.conv', ['5']), 25: ('lax.conv', [5]), 26: ('strict.conv', [5]),
          27: ('drain', [[1, 2, 3]]), 28: ('pv0.whoami', []), 29: ('pv0.ping', []), 30: ('add', [1, 2]), 31: ('neg', [5]),
          32: ('scratch.note', ['a']), 33: ('scratch.note', ['x']),
-         34: ('dflt.one', []), 35: ('dflt.true', []), 36: ('dflt.float', [])}
+         34: ('dflt.one', []), 35: ('dflt.true', []), 36: ('dflt.float', []),
+         37: ('typeof', [1]), 38: ('typeof', [True]), 39: ('typeof', [1.0]), 40: ('rereg', ['abc']), 41: ('rereg', [5])}
 REGEN = {20: 'x', 21: 'yz', 22: 'x'}
 
 
@@ -41,6 +42,10 @@ def build(kind):
             return id
         get.__annotations__ = {'id': ann}
         return pv.validate(get)
+
+    def typeof(a):
+        # arguments that are equal in Python and different in JSON (1, true, 1.0) reach the SAME method of the default validator
+        return '%s:%r' % (type(a).__name__, a)
 
     def make_dflt(default):
         # three functions that differ in the TYPE of a default only: 1 == True == 1.0 in Python, not in JSON
@@ -125,6 +130,13 @@ def build(kind):
     d.add(make_find('string'), 'tag.find')
     d.add(make_conv(pv), 'lax.conv')
     d.add(make_conv(pv_strict), 'strict.conv')
+    d.add(typeof, 'typeof')
+
+    def rereg(n: int):
+        return 'ran'
+    d.add(rereg, 'rereg')           # registered bare, then given a validator and registered again under the same name:
+    pv.validate(rereg)              # the later registration replaces the earlier one
+    d.add(rereg, 'rereg')
     d.add(make_dflt(1), 'dflt.one')
     d.add(make_dflt(True), 'dflt.true')
     d.add(make_dflt(1.0), 'dflt.float')
